@@ -15,6 +15,19 @@ from fractions import Fraction
 import numpy as np
 
 
+def _mp_counters():
+    """per-level draw counters in shared memory (created at import, inherited by the forked pool workers of the engine's
+    multi-process branch): every simulated path gets a unique (level, index) tag whichever process simulates it"""
+    try:
+        import multiprocess as _mp
+    except ImportError:      # pragma: no cover
+        import multiprocessing as _mp
+    return [_mp.Value("i", 0) for _ in range(24)]
+
+
+MP_COUNTERS = _mp_counters()
+
+
 class Shared:
     """log shared by all deep copies of a scripted process (the engine deep-copies the process per level)"""
 
@@ -25,6 +38,7 @@ class Shared:
         self.conv_calls = []     # (alpha, ml) passed to criteria
         self.max_level_drawn = -1
 
+        self.use_mp_counters = False   # multi-process runs: draw indices come from MP_COUNTERS (shared memory)
         self.tagged = True       # path managers carry the (epoch, level) tag pm_offset in their deterministic path
         self.epoch = -1          # index of the current pricing on this engine (Engine.initialisation starts a new one)
         self.history = []        # per finished pricing: dict(draws=..., events=..., max_level_drawn=...)
@@ -34,6 +48,9 @@ class Shared:
             self.history.append({"draws": self.draws, "events": self.events, "max_level_drawn": self.max_level_drawn})
         self.epoch += 1
         self.draws, self.events, self.alloc_calls, self.conv_calls, self.max_level_drawn = {}, [], [], [], -1
+        if self.use_mp_counters:
+            for c in MP_COUNTERS:
+                c.value = 0
 
     def __deepcopy__(self, memo):
         return self
@@ -125,6 +142,12 @@ class ScriptedCoupling:
 
     def _draw(self):
         sh = self.shared
+        if sh.use_mp_counters:           # possibly in a pool worker: only the shared-memory counter is meaningful
+            c = MP_COUNTERS[self.level]
+            with c.get_lock():
+                n = c.value
+                c.value = n + 1
+            return self.sample(self.level, n)
         n = sh.draws.get(self.level, 0)
         sh.draws[self.level] = n + 1
         sh.events.append(("draw", self.level, n))
@@ -166,6 +189,7 @@ def scripted_criteria(alloc, conv, shared, default_conv=True):
     st = {"k": 0, "j": 0}
     shared.alloc_answers = []
     shared.conv_answers = []
+    shared.rmse_seen = []        # (callback, rmse) of every call: the engine must hand over the user's rmse
 
     def compute_mc_paths(rmse, vl, cl):
         k = st["k"]
@@ -177,6 +201,7 @@ def scripted_criteria(alloc, conv, shared, default_conv=True):
             row = list(alloc[k]) if k < len(alloc) else []
         row = (row + [0] * n)[:n]
         shared.alloc_calls.append((np.array(vl, dtype=float).copy(), np.array(cl, dtype=float).copy()))
+        shared.rmse_seen.append(("compute_mc_paths", float(rmse)))
         shared.alloc_answers.append(list(row))
         shared.events.append(("alloc", k, tuple(row)))
         return np.array(row, dtype=int)
@@ -189,6 +214,7 @@ def scripted_criteria(alloc, conv, shared, default_conv=True):
         else:
             ans = bool(conv[j]) if j < len(conv) else default_conv
         shared.conv_calls.append((alpha, np.array(ml, dtype=float).copy()))
+        shared.rmse_seen.append(("criteria", float(rmse)))
         shared.conv_answers.append(ans)
         shared.events.append(("conv", j, ans))
         return ans
